@@ -584,12 +584,14 @@ func main() {
 		{"integer-keys-8byte", cfg{IntKey: true, Keys: []string{"q0", "q4294967301"}, Vals: []string{"x", "y"}, Remotes: false, Direct: true}, 4 + d},
 		{"local-only-deep", cfg{Keys: []string{"a", "b", "c"}, Vals: []string{"x"}, Direct: true}, 6 + d},
 	}
-	for _, rn := range runs {
+	for ri, rn := range runs {
 		if r.Expired() {
 			r.AddPart(&ev.Part{Name: rn.name, Engine: "E2", Exhaustive: false, Bound: "not started: time budget used up"})
 			continue
 		}
+		restoreBudget := r.SubBudget(r.Remaining() / time.Duration(len(runs)-ri+1)) // +1: the parts after this loop
 		st := statemc.Run(r, rn.name, "x", rn.c, rn.depth, 0)
+		restoreBudget()
 		cj, _ := json.Marshal(rn.c)
 		r.AddPart(&ev.Part{Name: rn.name, Engine: "E2", States: st.States, Transitions: st.Transitions, Executions: st.Transitions, Distinct: int64(st.Terminals), Exhaustive: st.Exhaustive,
 			Bound:   fmt.Sprintf("BFS depth %d of %d completed (frontier sizes %v); model comparison after every sync step; cfg %s; remote menu: newer/older x live/deleted on an existing key, a new key, a second key plus an older version, a new DBI, a snapshot with an unsupported second DBI", st.Depth, rn.depth, st.PerDepth, cj),
